@@ -273,3 +273,156 @@ Proof.
   intros Hf t l; induction l as [|x l IH]; intros m H; rewrite Hf in H; [discriminate|].
   cbn. destruct (typ x =? t); [now inversion H|]. now apply IH.
 Qed.
+
+(** * recv and the stream: exact consumption, independence from what follows the frame
+    (statements C02 can build on) *)
+
+Lemma le_dec_skipn w : forall bs n r, le_dec w bs = Some (n, r) -> r = skipn w bs.
+Proof.
+  induction w as [|w IH]; intros bs n r H; cbn [le_dec] in H.
+  - now inversion H.
+  - destruct bs as [|b bs']; [discriminate|].
+    destruct (le_dec w bs') as [[n' r']|] eqn:E; [|discriminate].
+    inversion H; subst. cbn. now apply (IH _ _ _ E).
+Qed.
+
+Lemma le_dec_app w : forall bs n r e, le_dec w bs = Some (n, r) -> le_dec w (bs ++ e) = Some (n, r ++ e).
+Proof.
+  induction w as [|w IH]; intros bs n r e H; cbn [le_dec] in *.
+  - now inversion H.
+  - destruct bs as [|b bs']; [discriminate|]. cbn [app].
+    destruct (le_dec w bs') as [[n' r']|] eqn:E; [|discriminate].
+    rewrite (IH _ _ _ e E). now inversion H.
+Qed.
+
+Lemma skipn_skipn {A} a b (l : list A) : skipn a (skipn b l) = skipn (b + a) l.
+Proof.
+  revert l; induction b as [|b IH]; intros l; cbn; [reflexivity|].
+  destruct l; [now destruct a|]. apply IH.
+Qed.
+
+(** Whenever recv does not report a connection error it has consumed exactly [size] bytes, the
+    value of the frame's own size field — whether the message was delivered, rejected
+    (ErrNoValidMessage) or of unknown type: the next frame starts right after. *)
+Theorem recv_consumes_size msize tbl s :
+  match recv msize tbl s with
+  | RConnErr => True
+  | RUnknown _ rest | RInvalid rest | ROk _ _ _ rest =>
+      exists size r, le_dec 4 s = Some (size, r) /\ header_length <= size /\ size <= msize /\ size <= maximum_length /\
+                     rest = skipn (N.to_nat size) s
+  end.
+Proof.
+  unfold recv.
+  destruct (le_dec 4 s) as [[size r1]|] eqn:E1; [|exact I].
+  destruct r1 as [|typ r2]; [exact I|].
+  destruct (le_dec 2 r2) as [[tag r3]|] eqn:E2; [|exact I].
+  destruct (size <? header_length) eqn:Hs; [exact I|].
+  destruct ((maximum_length <? size) || (msize <? size)) eqn:Hm; [exact I|].
+  apply N.ltb_ge in Hs. apply orb_false_iff in Hm as [Hm1 Hm2]. apply N.ltb_ge in Hm1, Hm2.
+  assert (Hrest : skipn (N.to_nat (size - header_length)) r3 = skipn (N.to_nat size) s).
+  { pose proof (le_dec_skipn _ _ _ _ E1) as H1. pose proof (le_dec_skipn _ _ _ _ E2) as H2.
+    assert (H3 : r2 = skipn 5 s).
+    { change 5%nat with (4 + 1)%nat. rewrite <- skipn_skipn. rewrite <- H1. reflexivity. }
+    rewrite H2, H3, !skipn_skipn. f_equal. unfold header_length in *. lia. }
+  assert (Hex : exists size0 r, Some (size, typ :: r2) = Some (size0, r) /\ header_length <= size0 /\ size0 <= msize /\
+                  size0 <= maximum_length /\ skipn (N.to_nat (size - header_length)) r3 = skipn (N.to_nat size0) s).
+  { exists size, (typ :: r2). repeat split; assumption. }
+  destruct (lookup typ tbl) as [ml|]; [|exact Hex].
+  destruct (match fixed_size ml with Some fs => Nat.ltb (N.to_nat (size - header_length)) fs | None => false end); [exact Hex|].
+  destruct (Nat.ltb (List.length r3) (N.to_nat (size - header_length))); [exact I|].
+  destruct (recv_body ml (firstn (N.to_nat (size - header_length)) r3)); exact Hex.
+Qed.
+
+Lemma firstn_app_le {A} n (l e : list A) : (n <= List.length l)%nat -> firstn n (l ++ e) = firstn n l.
+Proof. intros H. rewrite firstn_app. replace (n - List.length l)%nat with O by lia. cbn. apply app_nil_r. Qed.
+
+Lemma skipn_app_le {A} n (l e : list A) : (n <= List.length l)%nat -> skipn n (l ++ e) = skipn n l ++ e.
+Proof. intros H. rewrite skipn_app. replace (n - List.length l)%nat with O by lia. reflexivity. Qed.
+
+(** A delivered or rejected frame is judged on its own bytes: whatever follows it in the stream
+    changes nothing but the unread rest. *)
+Theorem recv_ignores_following msize tbl s e :
+  match recv msize tbl s with
+  | RConnErr => True
+  | RUnknown tag rest =>
+      (* the body of an unknown type is discarded as far as it is there *)
+      exists rest', recv msize tbl (s ++ e) = RUnknown tag rest'
+  | RInvalid rest => exists rest', recv msize tbl (s ++ e) = RInvalid rest'
+  | ROk tag typ mv rest => recv msize tbl (s ++ e) = ROk tag typ mv (rest ++ e)
+  end.
+Proof.
+  unfold recv.
+  destruct (le_dec 4 s) as [[size r1]|] eqn:E1; [|exact I].
+  destruct r1 as [|typ r2]; [exact I|].
+  destruct (le_dec 2 r2) as [[tag r3]|] eqn:E2; [|exact I].
+  rewrite (le_dec_app _ _ _ _ e E1). cbn [app]. rewrite (le_dec_app _ _ _ _ e E2).
+  destruct (size <? header_length); [exact I|].
+  destruct ((maximum_length <? size) || (msize <? size)); [exact I|].
+  destruct (lookup typ tbl) as [ml|]; [|eexists; reflexivity].
+  destruct (match fixed_size ml with Some fs => Nat.ltb (N.to_nat (size - header_length)) fs | None => false end);
+    [eexists; reflexivity|].
+  destruct (Nat.ltb (List.length r3) (N.to_nat (size - header_length))) eqn:El; [exact I|].
+  apply Nat.ltb_ge in El.
+  replace (Nat.ltb (List.length (r3 ++ e)) (N.to_nat (size - header_length))) with false
+    by (symmetry; apply Nat.ltb_ge; rewrite app_length; lia).
+  rewrite (firstn_app_le _ _ _ El), (skipn_app_le _ _ _ El).
+  destruct (recv_body ml (firstn (N.to_nat (size - header_length)) r3)); [reflexivity|eexists; reflexivity].
+Qed.
+
+(** decoding never reads behind itself: the unread rest is a suffix of the input *)
+Lemma take_suffix n : forall bs h t, take n bs = Some (h, t) -> bs = h ++ t.
+Proof.
+  induction n as [|n IH]; intros bs h t H; cbn in H; [now inversion H|].
+  destruct bs as [|b bs]; [discriminate|]. destruct (take n bs) as [[h' t']|] eqn:E; [|discriminate].
+  inversion H; subst. cbn. f_equal. now apply IH.
+Qed.
+
+Lemma dec_s_suffix k bs v r : dec_s k bs = Some (v, r) -> exists used, bs = used ++ r.
+Proof.
+  assert (Hle : forall w bs n r, le_dec w bs = Some (n, r) -> exists used, bs = used ++ r).
+  { intros w bs0 n r0 H. exists (firstn w bs0). rewrite (le_dec_skipn _ _ _ _ H). symmetry. apply firstn_skipn. }
+  destruct k; cbn [dec_s]; intros H.
+  - destruct (le_dec w bs) as [[n r']|] eqn:E; [|discriminate]. inversion H; subst. eapply Hle; eauto.
+  - destruct (le_dec 4 bs) as [[n r']|] eqn:E; [|discriminate]. inversion H; subst. eapply Hle; eauto.
+  - destruct (le_dec 2 bs) as [[n r']|] eqn:E; [|discriminate].
+    destruct (take (N.to_nat n) r') as [[s r'']|] eqn:E2; [|discriminate]. inversion H; subst.
+    destruct (Hle _ _ _ _ E) as [u Hu]. apply take_suffix in E2. exists (u ++ s). rewrite <- app_assoc. now rewrite <- E2.
+  - destruct (le_dec w bs) as [[n r']|] eqn:E; [|discriminate]. inversion H; subst. eapply Hle; eauto.
+Qed.
+
+Lemma dec_row_suffix l : forall bs vs r, dec_row l bs = Some (vs, r) -> exists used, bs = used ++ r.
+Proof.
+  induction l as [|[nm k] l IH]; intros bs vs r H; cbn in H.
+  - inversion H; subst. now exists [].
+  - destruct (dec_s k bs) as [[v r1]|] eqn:E1; [|discriminate].
+    destruct (dec_row l r1) as [[vs' r2]|] eqn:E2; [|discriminate]. inversion H; subst.
+    destruct (dec_s_suffix _ _ _ _ E1) as [u1 H1]. destruct (IH _ _ _ E2) as [u2 H2].
+    exists (u1 ++ u2). rewrite <- app_assoc. now rewrite <- H2.
+Qed.
+
+Lemma dec_rows_suffix l c : forall bs rows r, dec_rows l c bs = Some (rows, r) -> exists used, bs = used ++ r.
+Proof.
+  induction c as [|c IH]; intros bs rows r H; cbn in H.
+  - inversion H; subst. now exists [].
+  - destruct (dec_row l bs) as [[row r1]|] eqn:E1; [|discriminate].
+    destruct (dec_rows l c r1) as [[rows' r2]|] eqn:E2; [|discriminate]. inversion H; subst.
+    destruct (dec_row_suffix _ _ _ _ E1) as [u1 H1]. destruct (IH _ _ _ E2) as [u2 H2].
+    exists (u1 ++ u2). rewrite <- app_assoc. now rewrite <- H2.
+Qed.
+
+Theorem dec_fields_suffix l : forall bs vs r, dec_fields l bs = Some (vs, r) -> exists used, bs = used ++ r.
+Proof.
+  induction l as [|[nm k] l IH]; intros bs vs r H; cbn in H.
+  - inversion H; subst. now exists [].
+  - destruct (dec k bs) as [[v r1]|] eqn:E1; [|discriminate].
+    destruct (dec_fields l r1) as [[vs' r2]|] eqn:E2; [|discriminate]. inversion H; subst.
+    assert (H1 : exists u1, bs = u1 ++ r1).
+    { destruct k as [sk|elem]; cbn [dec] in E1.
+      - destruct (dec_s sk bs) as [[x rr]|] eqn:E; [|discriminate]. inversion E1; subst. eapply dec_s_suffix; eauto.
+      - destruct (le_dec 2 bs) as [[n rr]|] eqn:E; [|discriminate].
+        destruct (dec_rows elem (N.to_nat n) rr) as [[rows r'']|] eqn:E3; [|discriminate]. inversion E1; subst.
+        destruct (dec_rows_suffix _ _ _ _ _ E3) as [u Hu].
+        exists (firstn 2 bs ++ u). rewrite <- app_assoc, <- Hu. rewrite (le_dec_skipn _ _ _ _ E). symmetry. apply firstn_skipn. }
+    destruct H1 as [u1 H1]. destruct (IH _ _ _ E2) as [u2 H2].
+    exists (u1 ++ u2). rewrite <- app_assoc. now rewrite <- H2.
+Qed.
